@@ -23,6 +23,8 @@ def configs(tier):
                 out.append(dict(net="pinn", eq_type=eq_type, dim_x=dim_x, n_out=n_out, tf=tf, hidden=1))
         out.append(dict(net="pinn_shared", eq_type=eq_type, dim_x=dim_x, n_out=3, tf="both", hidden=1))
         out.append(dict(net="pinn_shared", eq_type=eq_type, dim_x=dim_x, n_out=3, tf="both", hidden=1, int_slice=True))
+        if dim_x != 1:        # the last output selected by the negative index -1
+            out.append(dict(net="pinn_shared", eq_type=eq_type, dim_x=dim_x, n_out=3, tf="both", hidden=1, int_slice="neg"))
         # an output transform that couples the components of the common network (component c reads component c-1): the
         # restriction to the wrapper's own slice comes AFTER the transform
         out.append(dict(net="pinn_shared", eq_type=eq_type, dim_x=dim_x, n_out=3, tf="coupled", hidden=1, int_slice=(dim_x == 1)))
@@ -100,7 +102,7 @@ def run(cfg, R):
         else:
             it = ot = None
         int_slice = cfg.get("int_slice", False)
-        shared = ((jnp.s_[0:2], jnp.s_[2]) if int_slice else (jnp.s_[0:1], jnp.s_[1:3])) if net == "pinn_shared" else None
+        shared = ((jnp.s_[0:2], (jnp.s_[-1] if int_slice == "neg" else jnp.s_[2])) if int_slice else (jnp.s_[0:1], jnp.s_[1:3])) if net == "pinn_shared" else None
         us = create_PINN(key, eqx_list, eq_type, dim_x, input_transform=it, output_transform=ot, shared_pinn_outputs=shared)
         ulist = us if shared else [us]
         params = Params(nn_params=ulist[0].init_params(), eq_params={"alpha": jnp.array(0.7), "beta": jnp.array(1.3)})
@@ -118,7 +120,7 @@ def run(cfg, R):
             if tf == "none":
                 extra["bare"] = call(ulist[0], t, x, params.nn_params)   # bare network parameters
             return outs, extra
-        name = f"{net}/{eq_type}/dx{dim_x}/out{n_out}/{tf}/h{hidden}" + ("/int-slice" if cfg.get("int_slice") else "")
+        name = f"{net}/{eq_type}/dx{dim_x}/out{n_out}/{tf}/h{hidden}" + ("/int-slice" + ("-neg" if cfg.get("int_slice") == "neg" else "") if cfg.get("int_slice") else "")
         tr = R.trace(name, f, (params, t, x), key=f"{net}:raises")
         if tr is None: return
 
